@@ -2,3 +2,7 @@ pub mod c02;
 pub mod c03;
 pub mod c11;
 pub mod c04;
+pub mod c01;
+pub mod builder;
+pub mod c05;
+pub mod c16;
